@@ -41,6 +41,7 @@ func (r stepRec) String() string {
 
 func newSess(cfg sessCfg) *sess {
 	x := &sess{cfg: cfg}
+	verifCounter = 0
 	x.s = eval.NewState()
 	x.s.NoReg = cfg.noReg
 	if cfg.maxDepth > 0 {
